@@ -23,6 +23,8 @@ SPEC = Spec(
         H("ptrslice", "TestVerifC07PtrSlice", "drv_c07", {"quick": 20000, "thorough": 100000}),
         Harness(name="map", module="pdata", pkg="pdata/pcommon", files={"zz_verif_c07_map_test.go": "c07/map_test.go"},
                 test="TestVerifC07Map", driver="drv_c07", n={"quick": 20000, "thorough": 150000}),
+        Harness(name="nest", module="pdata", pkg="pdata/pcommon", files={"zz_verif_c07_nest_test.go": "c07/nest_test.go"},
+                test="TestVerifC07Nest", driver="drv_c07", n={"quick": 8000, "thorough": 80000}),
         H("tree", "TestVerifC07Tree", None, {"quick": 12000, "thorough": 120000}),
         H("metric", "TestVerifC07Metric", None, {"quick": 12000, "thorough": 150000}),
     ],
